@@ -943,6 +943,16 @@ func runSim(t *testing.T, w *workload, fp simrt.FaultPlan, mp simrt.MapPolicy, m
 			return ""
 		},
 	}
+	// the environment: in one run out of eight the standard error stream is a character device
+	// (a terminal, /dev/null) instead of the pipe a test process has; code that decides on that
+	// (progress lines only on a terminal) takes its other branch
+	if seed%8 == 3 {
+		if dn, err := os.OpenFile(os.DevNull, os.O_WRONLY, 0); err == nil {
+			oldErr := os.Stderr
+			os.Stderr = dn
+			defer func() { os.Stderr = oldErr; dn.Close() }()
+		}
+	}
 	var leak string
 	rr.sim, leak = simh.RunBubble(t, opt, func() {
 		for k, tw := range tables {
